@@ -96,8 +96,91 @@ func runCase(cs caseC04) (log []consult, entries []int64, nres int, closed bool)
 	}
 }
 
+// blockedHandoff: the hand-off of a released hit is blocked (all workers busy, max reached) for a
+// known stretch of real time; the elapsed time handed to the NEXT consultation must include that
+// stretch (a lower bound: the clock is read after the tick was handed over), and when the stretch
+// crosses the deadline the pacer must not be consulted again at all.
+type handoffCase struct {
+	BlockNs int64 `json:"block_ns"`
+	DuNs    int64 `json:"duration_ns"`
+}
+
+func blockedHandoff(hc handoffCase, s *kit.Summary, st *kit.Stream) {
+	viol := func(kind, what, exp, obs string) {
+		s.Violate(kit.Violation{Kind: kind, What: what, Input: hc, Expected: exp, Observed: obs})
+	}
+	c := attackctl.NewWithDuration(1, 1, false, time.Duration(hc.DuNs))
+	t1 := time.Now() // the attack has begun: began <= t1, so time.Since(t1) is a lower bound of elapsed
+	if _, ok := c.Quiesce(); !ok {
+		s.Skipped["quiescence_not_established"]++
+		return
+	}
+	c.ReleasePace(false) // consult 0 -> hit 0 enters the transport
+	c.Quiesce()
+	c.ReleasePace(false) // consult 1 -> the send blocks: the only worker is busy
+	o, ok := c.Quiesce()
+	if !ok || o.PaceBlocked || len(o.InTransport) != 1 {
+		s.Skipped["handoff_scenario_not_reached"]++
+		c.Stop()
+		c.ReleaseTransport(0)
+		for c.Receive() != "c" {
+			if oo, _ := c.Quiesce(); oo.PaceBlocked {
+				c.ReleasePace(true)
+			}
+		}
+		return
+	}
+	time.Sleep(time.Duration(hc.BlockNs))
+	c.ReleaseTransport(0)
+	c.Quiesce()
+	lower := time.Since(t1) // the tick cannot have been handed over before the result is consumed
+	c.Receive()             // worker 0 becomes free, takes the tick, the loop moves on
+	o, _ = c.Quiesce()
+	el := c.PaceElapsed()
+	pastDeadline := hc.DuNs > 0 && lower > time.Duration(hc.DuNs)
+	if pastDeadline {
+		if len(el) > 2 {
+			viol("pace_consulted_after_deadline_real_time", "the pacer was consulted although more than the duration had elapsed before the loop came round",
+				"no third consultation (at least "+lower.String()+" had elapsed, duration "+time.Duration(hc.DuNs).String()+")", fmt.Sprint(len(el), " consultations, elapsed arguments ", el))
+		}
+	} else if len(el) > 2 && el[2] < lower {
+		viol("pace_elapsed_stale", "the elapsed time handed to the pacer does not include the time the loop spent blocked handing over the previous hit",
+			">= "+lower.String(), el[2].String())
+	}
+	// replay through the model: a consultation's elapsed can never precede the previous release
+	if len(el) > 2 && !pastDeadline {
+		st.Add(fmt.Sprintf("c04.lb %d %d %d", int64(el[1]), int64(lower), int64(el[2])), "ok")
+	}
+	s.Case(fmt.Sprint("handoff:", hc), true)
+	s.Count("handoff:past_deadline=" + fmt.Sprint(pastDeadline))
+	// drain
+	c.Stop()
+	for guard := 0; guard < 1000; guard++ {
+		oo, _ := c.Quiesce()
+		switch {
+		case oo.PaceBlocked:
+			c.ReleasePace(true)
+		case len(oo.InTransport) > 0:
+			c.ReleaseTransport(oo.InTransport[0])
+		default:
+			if c.Receive() == "c" {
+				return
+			}
+		}
+	}
+}
+
 func runC04(c *run.Ctx, s *kit.Summary) {
 	r := kit.NewRng(c.Seed)
+	lb := &kit.Stream{Name: "c04.lb"}
+	for i := 0; i < c.N(12, 200); i++ {
+		hc := handoffCase{BlockNs: r.Range(5, 30) * 1000000}
+		if r.Chance(0.5) {
+			hc.DuNs = r.Range(2, 60) * 1000000
+		}
+		blockedHandoff(hc, s, lb)
+	}
+	lb.Diff(c.Driver, s)
 	s.Rule = "short real attacks with a scripted adversarial pacer (waits 0, negative, sub-millisecond to 10ms; optional stop), durations 0 or 2..40ms, 0..4 initial and 1..4 max workers, transport latencies 0..2ms; non-trivial = distinct case with >= 3 consultations"
 	st := &kit.Stream{Name: "c04.log"}
 	n := c.N(250, 5000)
